@@ -572,6 +572,9 @@ def s5_stage_sequencing(prog):
     return r
 
 
+BLOCKING = ('std::sync::', 'std::thread::', 'core::hint::spin_loop', 'std::sync::mpsc', 'parking_lot', 'core::sync::atomic', 'crossbeam', 'rayon::scope', 'rayon::spawn', 'rayon_core::scope', 'rayon_core::spawn', 'std::panic::catch_unwind', 'rayon_core::ThreadPool')
+
+
 @rule('S7', props=['C12', 'C17'], floor=700, configs=('all',))
 def s7_no_blocking(prog):
     """No function of the crate calls a blocking / synchronising primitive (mutex, condvar, channel,
